@@ -111,6 +111,7 @@ class Profile:
         self.allow_in_crypto_fee: bool = False  # only meaningful through the parser (CLI / parse_ods)
         self.single_year_ties: bool = True  # same-instant groups share one own-timestamp year (keeps KF5 out)
         self.min_transfer_fee_fiat: Decimal = Decimal("0.000000001")  # keep KF4 region out of general workloads
+        self.p_rounded_out_total: float = 0.0  # given crypto_out_with_fee, probability that it is the exchange's rounded total
         self.max_sig_digits: int = 0  # 0 = unlimited; 15 for values that go through spreadsheet doubles
         for key, value in kw.items():
             if not hasattr(self, key):
@@ -186,10 +187,18 @@ def _year_end(year: int) -> datetime:
     return datetime(year, 12, 31, 23, 59, 59, 999999, tzinfo=timezone.utc)
 
 
-def next_instant(rng: random.Random, current: datetime, style: str) -> datetime:
-    """Pick the next instant strictly after `current`."""
+def next_instant(rng: random.Random, current: datetime, style: str, offset: int = 0) -> datetime:
+    """Pick the next instant strictly after `current` (`offset`: minutes east of UTC the history is written in, for the styles
+    that land on a wall-clock midnight)."""
     if style == "mixed":
-        style = rng.choice(("short", "short", "long", "boundary", "medium"))
+        style = rng.choice(("short", "short", "long", "boundary", "medium", "midnight"))
+    if style in ("midnight", "days"):
+        # date-only exports: exactly 00:00:00.000000 on the wall clock, one or more days later
+        zone = timezone(timedelta(minutes=offset))
+        local = current.astimezone(zone)
+        days = rng.choice((1, 1, 2, 7, 30, 364, 365, 366, rng.randint(1, 400))) if style == "days" else rng.choice((1, 1, 2, rng.randint(1, 60)))
+        target = datetime.combine(local.date() + timedelta(days=days), datetime.min.time(), tzinfo=zone)
+        return target.astimezone(timezone.utc)
     if style == "short":
         delta = rng.choice(
             (
@@ -296,6 +305,12 @@ def history(rng: random.Random, profile: Optional[Profile] = None, asset: str = 
     instant = datetime(year, rng.randint(1, 12), rng.randint(1, 28), rng.randint(0, 23), rng.randint(0, 59), rng.randint(0, 59), tzinfo=timezone.utc)
     if rng.random() < 0.3:
         instant = instant.replace(microsecond=rng.randint(1, 999999))
+    gap_style = p.gap_style
+    if gap_style == "mixed" and rng.random() < 0.08:
+        # a day-granular export: every row at 00:00:00.000000 of its day (rows of one day share an instant)
+        gap_style = "days"
+        zone = timezone(timedelta(minutes=base_offset))
+        instant = datetime.combine(instant.astimezone(zone).date(), datetime.min.time(), tzinfo=zone).astimezone(timezone.utc)
     sim.new_instant()
     group_offset_year: Optional[int] = None
     counters = {"IN": 0, "OUT": 0, "INTRA": 0}
@@ -318,7 +333,7 @@ def history(rng: random.Random, profile: Optional[Profile] = None, asset: str = 
             if rng.random() < p.tie_prob:
                 pass  # same instant as previous row
             else:
-                instant = next_instant(rng, instant, p.gap_style)
+                instant = next_instant(rng, instant, gap_style, base_offset)
                 sim.new_instant()
                 group_offset_year = None
         offset = pick_offset(instant)
@@ -424,7 +439,13 @@ def history(rng: random.Random, profile: Optional[Profile] = None, asset: str = 
                 "notes": "",
             }
             if rng.random() < p.p_optional_fiat / 2:
-                row["cout_wf"] = dstr(cout + cfee)
+                out_total = cout + cfee
+                if p.p_rounded_out_total and rng.random() < p.p_rounded_out_total:
+                    # the exchange's own total, rounded down to 8 or 4 decimals: supplied values win (it is what leaves the lots)
+                    rounded = out_total.quantize(Decimal(rng.choice(("0.00000001", "0.0001"))), rounding=ROUND_DOWN)
+                    if rounded > 0:
+                        out_total = rounded
+                row["cout_wf"] = dstr(out_total)
             if ttype != "FEE" and rng.random() < p.p_optional_fiat:
                 value = cout * spot
                 if rng.random() < p.p_inconsistent_fiat:
@@ -458,6 +479,8 @@ def history(rng: random.Random, profile: Optional[Profile] = None, asset: str = 
                 fee = _limit_sig(max(Q11, q11(sent / rng.choice((10, 100, 1000, 100000)))), p.max_sig_digits)
                 if fee >= sent:
                     fee = Decimal(0)
+                elif rng.random() < 0.04:
+                    fee = sent  # the whole amount went to the fee: nothing is received (the destination account is touched with zeros)
                 # keep the fiat value of the fee out of the KF4 region
                 if fee > 0 and fee * spot_d < p.min_transfer_fee_fiat:
                     fee = Decimal(0)
